@@ -204,16 +204,22 @@ func ruleC05(c *Check) {
 				g := c.closeFacts(e.Guards)
 				ok := false
 				for _, f := range g {
-					// ¬(found ∧ ¬Equals(signer, currentOwner))
-					if !f.Neg || f.T.Op != "&&" || len(f.T.A) != 2 {
+					// ¬(found ∧ ¬Equals(signer, currentOwner)) in normal form: ¬found ∨ Equals(signer, currentOwner)
+					ds := f.Disjuncts()
+					if len(ds) != 2 {
 						continue
 					}
-					a, b := f.T.A[0], f.T.A[1]
-					if a.String() == curFound && b.Op == "!" && b.A[0].Op == "sdk.AccAddress.Equals" {
-						x, y := b.A[0].A[0].String(), b.A[0].A[1].String()
-						if (x == S && y == cur) || (x == cur && y == S) {
-							ok = true
+					hasNF, hasEq := false, false
+					for _, d := range ds {
+						if d == "(! "+curFound+")" {
+							hasNF = true
 						}
+						if d == "(sdk.AccAddress.Equals "+S+" "+cur+")" || d == "(sdk.AccAddress.Equals "+cur+" "+S+")" {
+							hasEq = true
+						}
+					}
+					if hasNF && hasEq {
+						ok = true
 					}
 				}
 				// or the positive forms: not found, or Equals
